@@ -217,6 +217,11 @@ fn gen_macro_case(t: &mut Tape) -> MacroCase {
             }
         }
     }
+    // v2: the whole program in a bank whose first address is not 0 (block labels are addresses, not offsets)
+    if crate::engine::gen_version() >= 2 && t.chance(1, 4) {
+        let a = *t.pick(&[0x10u64, 0x40, 0x80]);
+        plain.insert(0, (0usize, format!("#bankdef zb\n{{\n    addr = {}\n    outp = 0\n}}", a)));
+    }
     MacroCase { isa, macros, calls, plain, globals, forward_global: true, local_label_used, expr_arg }
 }
 
